@@ -1,0 +1,33 @@
+//go:build verif
+
+// Contracts for the deductive verifier in /verif (govc). Comment-only: this file adds no code.
+package pbutil
+
+// ---- C09: decoder chosen by file suffix; unknown suffixes refused; encoder options; errors propagate
+
+//@ func fromPBContents
+//@   ghostset @call:google.golang.org/protobuf/proto.Unmarshal binary
+//@   ghostset @call:google.golang.org/protobuf/encoding/protojson.Unmarshal json
+//@   ghostset @call:google.golang.org/protobuf/encoding/prototext.Unmarshal text
+//@   ensures [pb-binary] hasSuffix(pbPath, ".pb") ==> ghost("binary") && !ghost("json") && !ghost("text") && result0 != nil
+//@   ensures [pb-json] !hasSuffix(pbPath, ".pb") && hasSuffix(pbPath, ".pb.json") ==> ghost("json") && !ghost("binary") && !ghost("text") && result0 != nil
+//@   ensures [textpb] !hasSuffix(pbPath, ".pb") && !hasSuffix(pbPath, ".pb.json") && hasSuffix(pbPath, ".textpb") ==> ghost("text") && !ghost("binary") && !ghost("json") && result0 != nil
+//@   ensures [unknown-refused] !hasSuffix(pbPath, ".pb") && !hasSuffix(pbPath, ".pb.json") && !hasSuffix(pbPath, ".textpb") ==> result0 == nil && result1 == ErrUnknownExtension && !ghost("binary") && !ghost("json") && !ghost("text")
+//@   errprop proto.Unmarshal protojson.Unmarshal prototext.Unmarshal
+
+//@ func FJSONPBWithOpt
+//@   ghostset @call:iface:io.Writer.Write written
+//@   assert @call:(google.golang.org/protobuf/encoding/protojson.MarshalOptions).Marshal [options] arg0.Multiline == !o.Compact && arg0.Indent == ite(o.Compact, "", " ") && arg0.EmitUnpopulated == false
+//@   ensures [nil-refused] m == nil ==> result != nil && !ghost("written")
+//@   errprop MarshalOptions).Marshal Writer.Write
+
+//@ func FTextPBWithOpt
+//@   ghostset @call:iface:io.Writer.Write written
+//@   assert @call:(google.golang.org/protobuf/encoding/prototext.MarshalOptions).Marshal [options] arg0.Multiline == !o.Compact && arg0.Indent == ite(o.Compact, "", " ")
+//@   ensures [nil-refused] m == nil ==> result != nil && !ghost("written")
+//@   errprop MarshalOptions).Marshal Writer.Write
+
+//@ func GeneratePBBinaryMessage
+//@   ghostset @call:iface:io.Writer.Write written
+//@   ensures [nil-refused] m == nil ==> result != nil && !ghost("written")
+//@   errprop proto.Marshal Writer.Write
